@@ -14,7 +14,7 @@ Extraction "model.ml"
   ReasmRs.run_log ReasmRs.monitor_C16
   Model.step Model.init Model.wire_type Monitors.monitor_step Monitors.mon_C08_secret Monitors.mall0
   Wire.decode Wire.dec_ok_basic WireMon.monitor_C18 WireMon.monitor_C18val WireMon.monitor_C03dec WireMon.rfc_verdict
-  EncodeMsg.encode_msg EncodeMsg.monitor_C14 EncodeMsg.monitor_C14_tail EncodeMsg.msg_type_of
+  EncodeMsg.encode_msg EncodeMsg.monitor_C14 EncodeMsg.monitor_C14_tail EncodeMsg.monitor_C14_indep Message.enc_values EncodeMsg.msg_type_of
   ArcHeap.heap0 ArcHeapProofs.outs_s ArcHeapProofs.outs_p ArcHeapProofs.wfb
   AttrValue.av_case_dec AttrValue.av_case_enc AttrValue.av_wf
   WireFull.dec_ok_full WireFull.typed_attrs
